@@ -451,7 +451,14 @@ func (ex *Exec) assumeWF(v Val, t types.Type) {
 	case Scalar:
 		if x.T != nil && isInteger(t) && !ex.bv {
 			lo, hi := intRange(t)
-			ex.assume(ts.And(ts.Le(ts.IntLit(lo), x.T, true), ts.Le(x.T, ts.IntLit(hi), true)))
+			if intWidth(t) == 64 && !ex.overflowChecks() {
+				// 64-bit bounds only matter for overflow obligations; unsigned values stay non-negative
+				if isUnsigned(t) {
+					ex.assume(ts.Le(ts.IntLit(lo), x.T, true))
+				}
+			} else {
+				ex.assume(ts.And(ts.Le(ts.IntLit(lo), x.T, true), ts.Le(x.T, ts.IntLit(hi), true)))
+			}
 		}
 	case SliceV:
 		z := ts.NumLit(big.NewInt(0), ex.idxSort())
@@ -493,4 +500,13 @@ func describeVal(ts *TermStore, v Val) string {
 		return "ref " + ts.Show(x.Ref)
 	}
 	return fmt.Sprintf("%T", v)
+}
+
+
+func (ex *Exec) overflowChecks() bool {
+	if ex.contract == nil {
+		return false
+	}
+	_, ok := ex.contract.Options["overflow"]
+	return ok
 }
